@@ -1,4 +1,4 @@
-use emmylua_code_analysis::uri_to_file_path;
+use emmylua_code_analysis::{read_file_with_encoding, uri_to_file_path};
 use lsp_types::{
     DidChangeTextDocumentParams, DidCloseTextDocumentParams, DidOpenTextDocumentParams,
     DidSaveTextDocumentParams,
@@ -192,6 +192,38 @@ pub async fn on_did_close_document(
             context
                 .file_diagnostic()
                 .clear_push_file_diagnostics(uri.clone());
+        }
+
+        return Some(());
+    }
+
+    // The editor's copy is gone, so the file on disk is the truth again: drop unsaved
+    // editor text that the analysis may still hold.
+    let emmyrc = analysis.get_emmyrc();
+    let analysed_text = analysis
+        .compilation
+        .get_db()
+        .get_vfs()
+        .get_document(&file_id)
+        .map(|document| document.get_text().to_string());
+    drop(analysis);
+    let disk_text = uri_to_file_path(uri)
+        .and_then(|path| read_file_with_encoding(&path, &emmyrc.workspace.encoding));
+    if let Some(disk_text) = disk_text
+        && analysed_text.as_deref() != Some(disk_text.as_str())
+    {
+        let file_id = {
+            let mut mut_analysis = context.analysis().write().await;
+            mut_analysis.update_file_by_uri(uri, Some(disk_text))
+        };
+        if !lsp_features.supports_pull_diagnostic()
+            && let Some(file_id) = file_id
+        {
+            let interval = emmyrc.diagnostics.diagnostic_interval.unwrap_or(500);
+            context
+                .file_diagnostic()
+                .add_diagnostic_task(file_id, interval)
+                .await;
         }
     }
 
